@@ -15,8 +15,11 @@ def l2_part(run, exe_unused, results, env):
     N = notelib
     ncfgs = [("c13_nw", dict(tree=N.T((1, 0, N.NONE)), NN=1, MaxNow=1, progs=[[N.WAIT(1, 1), N.POLL(1)], [N.NOTIFY(1)]])),
              ("c13_n2w", dict(tree=N.CHAIN2, NN=2, MaxNow=1, progs=[[N.WAIT(2, 1)], [N.WAIT(2, 1)], [N.NOTIFY(1)]]))]
+    # ... and nsync_sem_wait_with_cancel_ (sem_wait.c), the sleep of a cancellable cv / mu wait, step by step: its on-stack record
+    # against notifiers, the note's own expiry and the caller's deadline (configurations s_* of notelib)
+    ncfgs += [(n, c) for n, (props, t, c) in N.CONF.items() if n.startswith("s_") and "C13" in props and (t == "q" or run.tier == "thorough")]
     ncf = [(n, dict(N.note_conf(c), _c=c)) for n, c in ncfgs]
-    l2lib.run_family(run, exe2, "Note", "C13", ncf, lambda conf: N.consts_of(conf["_c"]), set(), {"O-mem"})
+    l2lib.run_family(run, exe2, "Note", "C13", ncf, lambda conf: N.consts_of(conf["_c"]), {"NoDeadRecord"}, {"O-mem"})
     exer = build("h_l2r")
     l2lib.random_runs(run, exer, "Counter", ccfgs, 2000 if run.tier == "quick" else 50000, "C13", {"O-mem"})
     l2lib.random_runs(run, exer, "Note", ncf, 2000 if run.tier == "quick" else 50000, "C13", {"O-mem"})
